@@ -273,6 +273,8 @@ def plan(tier, seed):
     specs.append(dict(name="fault-pairs", kind="pairs", tier=tier))
     for i in range(4):
         specs.append(dict(name="streams-%d" % i, kind="streams", n=1500 if tier == "quick" else 40000))
+    # once more with the library's debug tracing switched on
+    specs.append(dict(name="tracing-streams", kind="streams", n=200 if tier == "quick" else 4000, tracing=True))
     return specs
 
 
